@@ -1,9 +1,103 @@
-use cbverif::case::*;
-use cbverif::interp::{run_case, Opts};
+use cbverif::case::Case;
+use cbverif::props::{exec_replay, Prop};
+use cbverif::runner::{self, Stats, FLAG_NAMES};
+use serde_json::json;
+use std::time::Instant;
+
+fn arg(args: &[String], name: &str) -> Option<String> {
+    args.iter().position(|a| a == name).and_then(|i| args.get(i + 1).cloned())
+}
+
+fn stats_json(st: &Stats) -> serde_json::Value {
+    let mut flags = serde_json::Map::new();
+    for (i, n) in FLAG_NAMES.iter().enumerate() {
+        flags.insert(n.to_string(), json!(st.flag_counts[i]));
+    }
+    json!({
+        "evaluations": st.evaluations,
+        "distinct_nontrivial": st.nontrivial.len(),
+        "by_first_op": st.by_op,
+        "by_capacity": st.by_cap.iter().map(|(k, v)| (k.to_string(), *v)).collect::<std::collections::BTreeMap<_, _>>(),
+        "fact_counts": flags,
+        "samples": st.samples,
+        "digest": format!("{:016x}", st.digest),
+    })
+}
+
 fn main() {
     std::panic::set_hook(Box::new(|_| {}));
-    let c = Case::simple(4, 2, 3, vec![Op::PushBack, Op::PushBack, Op::Remove(Idx::At(1)), Op::Views]);
-    println!("{}", c.render());
-    println!("{}", c.to_json());
-    println!("{:?}", run_case(&c, Opts::default()));
+    let args: Vec<String> = std::env::args().collect();
+    let cmd = args.get(1).map(|s| s.as_str()).unwrap_or("");
+    match cmd {
+        "run" => {
+            let prop = Prop::parse(&args[2]).expect("unknown property");
+            let thorough = arg(&args, "--tier").as_deref() == Some("thorough");
+            let seed: u64 = arg(&args, "--seed").and_then(|s| s.parse().ok()).unwrap_or(20260926);
+            let threads: usize = arg(&args, "--threads").and_then(|s| s.parse().ok()).unwrap_or(16);
+            let out = arg(&args, "--out").expect("--out");
+            let crash = arg(&args, "--crash-file").unwrap_or_else(|| format!("{out}.crash"));
+            let mode = arg(&args, "--mode").unwrap_or_else(|| "both".into());
+            let prop_cases: u32 = arg(&args, "--prop-cases").and_then(|s| s.parse().ok()).unwrap_or(if thorough { 400_000 } else { 20_000 });
+            let max_ops: usize = arg(&args, "--max-ops").and_then(|s| s.parse().ok()).unwrap_or(if thorough { 120 } else { 40 });
+            runner::install_guards(&crash, 20);
+            let t0 = Instant::now();
+            let mut report = serde_json::Map::new();
+            let mut failure: Option<(String, Case, String)> = None;
+            if mode == "both" || mode == "enum" {
+                let (st, found, units) = runner::run_enum(prop, thorough, threads);
+                let mut j = stats_json(&st);
+                j["layout_units"] = json!(units);
+                j["exhaustive"] = json!(found.is_none());
+                j["capacities"] = json!(prop.caps(thorough));
+                report.insert("enumerative".into(), j);
+                if let Some(f) = found {
+                    failure = Some(("enumerative".into(), f.case, f.msg));
+                }
+            }
+            if failure.is_none() && (mode == "both" || mode == "prop") {
+                let (st, found) = runner::run_prop(prop, prop_cases, max_ops, seed, threads);
+                let mut j = stats_json(&st);
+                j["max_ops"] = json!(max_ops);
+                report.insert("proptest".into(), j);
+                if let Some(f) = found {
+                    failure = Some(("proptest".into(), f.case, f.msg));
+                }
+            }
+            if let Some((gen, case, msg)) = failure {
+                let (small, smsg) = runner::shrink(prop, &case);
+                report.insert(
+                    "failure".into(),
+                    json!({"generator": gen, "message": smsg, "original_message": msg, "case": serde_json::to_value(&small).unwrap(), "rendered": small.render()}),
+                );
+            }
+            report.insert("wall_s".into(), json!(t0.elapsed().as_secs_f64()));
+            report.insert("seed".into(), json!(seed));
+            report.insert("rule".into(), json!(prop.rule()));
+            runner::guards_done();
+            std::fs::write(&out, serde_json::to_string_pretty(&serde_json::Value::Object(report)).unwrap()).unwrap();
+        }
+        "replay" => {
+            let prop = Prop::parse(&args[2]).expect("unknown property");
+            let text = std::fs::read_to_string(&args[3]).expect("read replay file");
+            // a replay file is either the bare case or an object with a "case" member
+            let v: serde_json::Value = serde_json::from_str(&text).expect("json");
+            let cv = if v.get("case").is_some() { v["case"].clone() } else { v };
+            let case: Case = serde_json::from_value(cv).expect("case");
+            println!("case: {}", case.render());
+            runner::install_guards(&format!("{}.crash", &args[3]), 30);
+            match exec_replay(prop, &case) {
+                Ok(_) => {
+                    println!("REPLAY-OK property={} holds on this case", prop.id());
+                }
+                Err(m) => {
+                    println!("REPLAY-FAIL property={} {}", prop.id(), m);
+                    std::process::exit(1);
+                }
+            }
+        }
+        _ => {
+            eprintln!("usage: cbverif run <Cxx> --tier quick|thorough --seed N --out FILE | replay <Cxx> FILE");
+            std::process::exit(64);
+        }
+    }
 }
